@@ -63,6 +63,27 @@ def predict(cfg, rng, q=None, thorough=False):
     if abs(v - i0) > max(50.0 / nphi ** 2, 1e-6) * ref:
         bad('iota2:origin-shift', 'iota2 depends on the toroidal origin: %.6g -> %.6g after a shift by %d grid points (nphi=%d)' % (i0, v, k, nphi))
     if not q.lasym:
+        # for a stellarator-symmetric input, reversing the sign of G alone reverses iota and iota2
+        c2 = dict(cfg); c2['sG'] = -cfg.get('sG', 1)
+        try:
+            v, q2 = iota2_of(c2); n += 1
+            if abs(q2.iota + q.iota) <= 1e-9 * max(1.0, abs(q.iota)) and abs(v + i0) > 1e-7 * ref:
+                bad('iota2:sG-flip', 'for a stellarator-symmetric input iota changes sign exactly under sG -> -sG but iota2 does not: %.9g -> %.9g' % (i0, v))
+        except NotConverged:
+            pass
+    symmetric_axis = cfg.get('sigma0', 0) == 0 and not any(cfg.get('rs', [])) and not any(cfg.get('zc', []))
+    if symmetric_axis:
+        # symmetric axis and sigma (B2s may be non-zero): iota2 is computed without quadrature, so it is resolution independent once sigma is resolved
+        spec = np.abs(np.fft.rfft(q.sigma + q.curvature)); tail = spec[-3:].max() / max(spec.max(), 1e-300)
+        if tail < 1e-10:
+            cc = dict(cfg); cc['nphi'] = 2 * nphi + 1
+            try:
+                v, _ = iota2_of(cc); n += 1
+                if abs(v - i0) > 1e-6 * ref:
+                    bad('iota2:resolution', 'symmetric axis, sigma0 = 0: iota2 changes from %.9g (nphi=%d) to %.9g (nphi=%d) although the profiles are resolved to %.1g' % (i0, nphi, v, 2 * nphi + 1, tail))
+            except NotConverged:
+                pass
+    if not q.lasym:
         c2 = dict(cfg); c2['sigma0'] = 1e-12
         v, _ = iota2_of(c2); n += 1
         if abs(v - i0) > (50.0 / nphi ** 2) * ref:
@@ -117,6 +138,11 @@ def main():
         sg = [(1, 1), (1, -1), (-1, 1), (-1, -1)][tried % 4]
         try:
             cfg, q = gen_admissible(rng, order='r3', asym=(tried % 2 == 0), qh=(tried % 3 == 0), signs=sg, nphi=int(2 * rng.integers(15, 31) + 1), shear=True)
+            if not q.lasym and tried % 4 == 1:
+                c2 = single_knob_variant(cfg, rng)        # exactly one symmetry-breaking input (B2s alone, sigma0 alone, ...)
+                q2, msgs2 = build(c2, shear=True)
+                if admissible(q2, msgs2):
+                    cfg, q = c2, q2
         except RuntimeError:
             continue
         key = '%s/%s/sG%+d/spsi%+d/nfp%d' % ('QH' if q.helicity else 'QA', 'asym' if q.lasym else 'sym', cfg['sG'], cfg['spsi'], cfg['nfp'])
